@@ -22,6 +22,8 @@ const CTXS: &[&str] = &[
     "(list (list 'p 'q) (vector 1 \"s\") •)",
     "(cons (string-append \"a\" \"b\") •)",
     "(apply list (list 'h) • (list (list 'z)))",
+    // inside a delayed expression: re-entering it after the promise has a value does not change that value
+    "(let ((pr (delay (list 'd •)))) (list (force pr) (force pr)))",
 ];
 
 /// receivers: (text, how k is stored: 0 = not stored, 1 = continuation, 2 = in a list, 3 = in a closure, 4 = in a vector)
@@ -227,7 +229,7 @@ pub fn run(ctx: &Ctx) -> i32 {
     rep.transitions = Some(*acc.counters.get("model_steps").unwrap_or(&0));
     rep.traces_validated = Some(acc.nontrivial);
     rep.rule = format!(
-        "The full product: call/cc position ({} contexts: operand 2 of 3, last operand, variadic argument, let binding, tail of a procedure, inside a map callback, if test, nested operand, after heap-allocated operands (list, cons, apply), as a later element of a quasiquoted vector / list template and of a vector call) x receiver ({}: returns normally, escapes at once, escapes from a nested operand, a builtin, stores k in a variable / list / closure / vector-then-escapes, hands the continuation to call/cc as its receiver) x surrounding frame (top level, variadic frame, after a different-arity tail call, 60 non-tail frames deep) x same-form re-entry loop (no / twice via a counter) x every sequence of <= {} later top-level invocation forms out of 10 (direct, guarded loop, inside map / for-each callbacks, inside the extent of a second continuation, from depth 3, from an operand position, re-entering the second continuation, with a freshly allocated value, as the receiver of a later call/cc) = {} programs, each given to the VM form by form as text (Vm::eval_text) and (thorough: all; quick: those with at most one later invocation form) as data (Vm::eval); each program also mutates a captured local and captured data between capture and re-entry and logs it (the log keeps the delivered result itself - a re-entry must not change an object already delivered - or, in the contexts with heap-allocated operands, a copy, so that those operands stay reachable only through the continuation). A collection is forced before every top-level form and at every point where the VM itself polls the collector (heap audit attached). Every form's value and the log are compared with the reference CEK machine. Non-trivial = agreement on every form.",
+        "The full product: call/cc position ({} contexts: operand 2 of 3, last operand, variadic argument, let binding, tail of a procedure, inside a map callback, if test, nested operand, after heap-allocated operands (list, cons, apply), as a later element of a quasiquoted vector / list template and of a vector call, inside a delayed expression forced twice) x receiver ({}: returns normally, escapes at once, escapes from a nested operand, a builtin, stores k in a variable / list / closure / vector-then-escapes, hands the continuation to call/cc as its receiver) x surrounding frame (top level, variadic frame, after a different-arity tail call, 60 non-tail frames deep) x same-form re-entry loop (no / twice via a counter) x every sequence of <= {} later top-level invocation forms out of 10 (direct, guarded loop, inside map / for-each callbacks, inside the extent of a second continuation, from depth 3, from an operand position, re-entering the second continuation, with a freshly allocated value, as the receiver of a later call/cc) = {} programs, each given to the VM form by form as text (Vm::eval_text) and (thorough: all; quick: those with at most one later invocation form) as data (Vm::eval); each program also mutates a captured local and captured data between capture and re-entry and logs it (the log keeps the delivered result itself - a re-entry must not change an object already delivered - or, in the contexts with heap-allocated operands, a copy, so that those operands stay reachable only through the continuation). A collection is forced before every top-level form and at every point where the VM itself polls the collector (heap audit attached). Every form's value and the log are compared with the reference CEK machine. Non-trivial = agreement on every form.",
         CTXS.len(), RECVS.len(), max_inv, progs.len()
     );
     rep.extra("programs", json!(progs.len()));
